@@ -236,6 +236,7 @@ def register_wellformedness_witnesses(w):
                                  ("a_float32_constant_next_to_a_float32_cast_under_double_precision_gives_a_well_typed_model", "D35", "one program: x.astype(float32) * float32(0.25), enable_double_precision=True"),
                                  ("values_bound_in_loop_if_scan_bodies_are_never_read_from_an_enclosing_scope", "C03_control_flow_scopes_family",
                                   "18 programs (cond / while capturing / while carrying / scan, each followed by 4 uses of a symbolic dimension's size; 2 inside @onnx_function bodies) x {static, symbolic} shapes, symbols bound to (4,5) and (2,2)"),
+                                 ("a_scan_over_a_float32_sequence_under_double_precision_gives_a_well_typed_model", "D49", "one program: lax.scan over jnp.arange(4, dtype=float32) with a float64 carry, enable_double_precision=True"),
                                  ("range_like_operators_type_check_at_every_requested_opset", "C11_type_constraints_family",
                                   "jnp.arange / lax.iota / jnp.linspace with result types float16, bfloat16, float32, int32, int64 at every opset from 21 to the newest installed (shared with C11)")):
             holds, detail = run_witness(wn, timeout=900)
@@ -246,7 +247,7 @@ def register_wellformedness_witnesses(w):
             out["obls"].append(d)
         out["paths"], out["time"] = 1, time.time() - t0
         return out
-    w.add_contract(Contract("jax2onnx.user_interface:<wellformedness-witnesses>", kind="custom", custom=custom, props=["C03"], witnesses=["D30", "D31", "D34", "D35", "C03_control_flow_scopes_family", "C11_type_constraints_family"]))
+    w.add_contract(Contract("jax2onnx.user_interface:<wellformedness-witnesses>", kind="custom", custom=custom, props=["C03"], witnesses=["D30", "D31", "D34", "D35", "C03_control_flow_scopes_family", "C11_type_constraints_family", "D49"]))
 
 
 def register_attach(w):
